@@ -135,6 +135,17 @@ pub open spec fn parse_dec_u64(b: Seq<u8>) -> Option<u64> {
         None => None,
     }
 }
+/// decimal digits of n without padding ("0" for 0)
+pub open spec fn dec_digits(n: nat) -> Seq<u8>
+    decreases n
+{
+    if n < 10 { seq![(48 + n) as u8] } else { dec_digits(n / 10).push((48 + n % 10) as u8) }
+}
+/// N9: `size.to_string()` of a u64 (Display of integers is outside the verifier): ASSUMED to be the decimal digits
+#[verifier::external_body]
+pub fn u64_to_string(n: u64) -> (r: String)
+    ensures utf8_bytes(r@) == dec_digits(n as nat)
+{ n.to_string() }
 #[verifier::external_body]
 pub broadcast proof fn axiom_parse_u64(b: Seq<u8>)
     ensures #[trigger] parse_any::<u64>(b) == parse_dec_u64(b)
